@@ -87,24 +87,57 @@ fn check_border(e: &Emu, cfg: &MCfg, start_colour: u8, writes: &[Write], frame_n
     Ok(())
 }
 
+fn load_snap(e: &mut Emu, m128: bool, border: u8, fmt: i64, fe_low: u8) -> Result<(), Fail> {
+    let mut s = SnapState::new(m128);
+    s.border = border;
+    s.cpu.pc = IDLE;
+    s.cpu.sp = 0x8FF0;
+    let r = if fmt == 0 {
+        let bytes = if m128 { write_sna128(&s) } else { write_sna48(&s) };
+        e.load_snapshot(Snapshot::Sna(SimAsset::plain(bytes)))
+    } else {
+        let opt = SzxOptions { fe_low: Some(fe_low), ..Default::default() };
+        e.load_snapshot(Snapshot::Szx(SimAsset::plain(write_szx(&s, &opt))))
+    };
+    r.map_err(|x| Fail::new("C09.load", "", format!("{:?}", x)))?;
+    if e.border_color() as u8 != border {
+        return Err(Fail::new(
+            "C09.snapshot_border",
+            &format!("machine={},format={}", if m128 { "128k" } else { "48k" }, if fmt == 0 { "sna" } else { "szx" }),
+            format!("border_color() is {} after loading a {} snapshot with border {}{}", e.border_color() as u8, if fmt == 0 { "SNA" } else { "SZX" }, border, if fmt == 0 { String::new() } else { format!(" (low bits of its last-OUT field: {})", fe_low) }),
+        ));
+    }
+    write_mem(e, IDLE, &[0xF3, 0x18, 0xFE]);
+    write_mem(e, OUTS, &[0xD3, 0xFE]);
+    write_mem(e, OUTC, &[0xED, 0x79]);
+    let mut st = cpu_state(e);
+    st.pc = IDLE;
+    st.sp = 0x8FF0;
+    st.iff1 = false;
+    st.iff2 = false;
+    st.halted = false;
+    st.to_impl(e.verif_cpu());
+    Ok(())
+}
+
 impl Property for C09 {
     fn id(&self) -> &'static str {
         "C09"
     }
     fn runs(&self, tier: Tier) -> u64 {
         match tier {
-            Tier::Quick => 400,
-            Tier::Thorough => 30_000,
+            Tier::Quick => 2_400,
+            Tier::Thorough => 120_000,
         }
     }
     fn rule(&self) -> &'static str {
-        "per run: machine, optional snapshot load that sets the border, then 3..8 frames each with 0..12 OUTs (OUT (n),A or OUT (C),A to a seeded even port) at seeded T (uniform, clustered on one line, in horizontal/vertical retrace, in the first/last border lines, straddling the frame end); every completed border buffer is compared pixel by pixel with the time line of observed write instants (+-8 T = 16 pixels); distinct = (machine, line class of the write, in-line phase bucket, writes-per-frame bucket)"
+        "per run: machine, optional snapshot load (SNA or SZX) that sets the border, snapshot loads between frames, then 3..8 frames each with 0..12 OUTs (OUT (n),A or OUT (C),A to a seeded even port) at seeded T (uniform, clustered on one line, in horizontal/vertical retrace, in the first/last border lines, straddling the frame end); every completed border buffer is compared pixel by pixel with the time line of observed write instants (+-8 T = 16 pixels); distinct = (machine, line class of the write, in-line phase bucket, writes-per-frame bucket)"
     }
     fn state_measure(&self) -> &'static str {
         "distinct (machine, write T / 64) positions exercised"
     }
     fn real_components(&self) -> Vec<&'static str> {
-        vec!["ZXBorder (set_border, fill_to, new_frame)", "ZXController::write_io ULA branch, border_color", "Z80 OUT", "sna loader (border field)"]
+        vec!["ZXBorder (set_border, fill_to, new_frame)", "ZXController::write_io ULA branch, border_color", "Z80 OUT", "SNA and SZX loaders (border field; SZX last-OUT field with arbitrary low bits)"]
     }
     fn stub_components(&self) -> Vec<&'static str> {
         vec!["Host::FrameBuffer (recording border buffer)", "RefBorder time line"]
@@ -113,7 +146,7 @@ impl Property for C09 {
         vec!["the write is taken to happen somewhere between the start of the port cycle and the end of the OUT instruction; pixels within 8 T of that span may show either colour", "code runs in uncontended RAM; ports have an uncontended high byte unless stated (the instants are observed, not predicted)"]
     }
     fn expected_probes(&self) -> Vec<&'static str> {
-        vec!["frame_without_write", "several_writes_one_line", "write_in_retrace", "write_straddles_frame_end", "write_in_last_lines", "snapshot_border", "write_before_first_border_line"]
+        vec!["frame_without_write", "several_writes_one_line", "write_in_retrace", "write_straddles_frame_end", "write_in_last_lines", "snapshot_border", "write_before_first_border_line", "snapshot_between_frames", "szx_fe_low_differs"]
     }
 
     fn gen(&self, rng: &mut Rng, tier: Tier, _idx: u64) -> Scenario {
@@ -121,6 +154,11 @@ impl Property for C09 {
         let m128 = rng.bool();
         sc.set("m128", m128 as i64);
         sc.set("snap_border", if rng.chance(1, 4) { rng.range(0, 7) } else { -1 });
+        // format of the snapshots (0 SNA, 1 SZX); an SZX writer may leave anything in the low bits of
+        // the "last OUT to 0xFE" field, only its MIC/EAR bits are defined
+        sc.set("snap_fmt", rng.range(0, 1));
+        sc.set("snap_fe", rng.range(0, 7));
+        let snap_mid = rng.chance(1, 3);
         let f: i64 = if m128 { 70908 } else { 69888 };
         let line: i64 = if m128 { 228 } else { 224 };
         let first: i64 = if m128 { 14362 } else { 14336 };
@@ -148,6 +186,10 @@ impl Property for C09 {
             for t in ts {
                 sc.op("out", &[fr, t, rng.range(0, 7), rng.range(0, 1), (rng.u8() as i64) << 8 | 0xFE, rng.range(0, 255)]);
             }
+            if snap_mid && fr > 0 && rng.chance(1, 3) {
+                // the host loads a snapshot between two frames
+                sc.op("snap", &[rng.range(0, 7), rng.range(0, 1), rng.range(0, 7)]);
+            }
             sc.op("frame", &[fr]);
         }
         sc
@@ -164,17 +206,14 @@ impl Property for C09 {
         let mut colour: u8;
         // optional: the border stored in a loaded snapshot
         let sb = sc.get("snap_border");
+        let snap_fmt = sc.get("snap_fmt").clamp(0, 1);
+        let snap_fe = (sc.get("snap_fe") & 7) as u8;
         if (0..8).contains(&sb) {
             ctx.probe("snapshot_border");
-            let mut s = SnapState::new(m128);
-            s.border = sb as u8;
-            s.cpu.pc = IDLE;
-            s.cpu.sp = 0x8FF0;
-            let bytes = if m128 { write_sna128(&s) } else { write_sna48(&s) };
-            e.load_snapshot(Snapshot::Sna(SimAsset::plain(bytes))).map_err(|x| Fail::new("C09.load", "", format!("{:?}", x)))?;
-            if e.border_color() as u8 != sb as u8 {
-                return Err(Fail::new("C09.snapshot_border", &format!("machine={}", machine), format!("border_color() is {} after loading a snapshot with border {}", e.border_color() as u8, sb)));
+            if snap_fmt == 1 && snap_fe != sb as u8 {
+                ctx.probe("szx_fe_low_differs");
             }
+            load_snap(&mut e, m128, sb as u8, snap_fmt, snap_fe)?;
         }
         write_mem(&mut e, IDLE, &[0xF3, 0x18, 0xFE]);
         write_mem(&mut e, OUTS, &[0xD3, 0xFE]);
@@ -275,6 +314,22 @@ impl Property for C09 {
                     let mut st = cpu_state(&mut e);
                     st.pc = IDLE;
                     st.to_impl(e.verif_cpu());
+                }
+                "snap" => {
+                    // only between frames, with no write of the new frame outstanding
+                    if frame_done || !cur.is_empty() || !pending.is_empty() || e.verif_frame_clocks() > 64 {
+                        continue;
+                    }
+                    ctx.probe("snapshot_between_frames");
+                    let b = (op.arg(0) & 7) as u8;
+                    let fmt = op.arg(1).clamp(0, 1);
+                    let fe = (op.arg(2) & 7) as u8;
+                    if fmt == 1 && fe != b {
+                        ctx.probe("szx_fe_low_differs");
+                    }
+                    load_snap(&mut e, m128, b, fmt, fe)?;
+                    colour = b;
+                    start_colour = b;
                 }
                 "frame" => {
                     if !frame_done {
